@@ -36,31 +36,31 @@ def main():
         ran.append('suite with change: exit %d (%s)' % (rct, tail))
         rc1, o1 = sh('%s %s' % (PY, demo), cwd=wt); ran.append('demo with change: exit %d' % rc1)
         confirmed = (rc0 == 0 and rct == 0 and ((rc1 == 0) if harmless else (rc1 != 0)))
+        # the checks run against the scratch worktree with the change applied ($ODFPY_REPO): /repo itself stays untouched, so other
+        # work going on against /repo is not disturbed (equivalent to `git -C /repo apply` + checks + `git -C /repo checkout -- .`)
+        results = {}
+        if confirmed:
+            try:
+                for c in checks:
+                    rcc, oc = sh('ODFPY_REPO=%s ./check %s' % (wt, c), cwd=VERIF)
+                    lines = [l for l in oc.splitlines() if l.startswith('VIOLATION') or l.startswith(c)]
+                    viol = [l for l in lines if l.startswith('VIOLATION')]
+                    outcome = 'quiet' if rcc == 0 else ('infra' if rcc != 1 else ('no-failing-input' if viol and all(l.rstrip().endswith('no-failing-input-found') for l in viol) else 'concrete'))
+                    results[c] = {'exit': rcc, 'outcome': outcome, 'lines': [l[:300] for l in lines][:6]}
+                    if rcc not in (0, 1):
+                        results[c]['tail'] = oc[-1500:]
+                    for l in lines:
+                        if l.startswith('VIOLATION') and 'replay=' in l:
+                            rp = l.split('replay=')[1].split()[0]
+                            try:
+                                results[c]['replay'] = json.load(open(os.path.join(VERIF, rp)))
+                            except Exception:
+                                pass
+            finally:
+                shutil.rmtree(os.path.join(VERIF, 'replays'), ignore_errors=True)
+                sh('git -C %s checkout -- evidence' % VERIF)
     finally:
         sh('git -C /repo worktree remove --force %s' % wt); shutil.rmtree(wt, ignore_errors=True)
-    results = {}
-    if confirmed:
-        st, _ = sh('git -C /repo status --porcelain');
-        rc, out = sh('git -C /repo apply %s' % patch); assert rc == 0, out
-        try:
-            for c in checks:
-                rcc, oc = sh('./check %s' % c, cwd=VERIF)
-                lines = [l for l in oc.splitlines() if l.startswith('VIOLATION') or l.startswith(c)]
-                viol = [l for l in lines if l.startswith('VIOLATION')]
-                outcome = 'quiet' if rcc == 0 else ('infra' if rcc != 1 else ('no-failing-input' if viol and all(l.rstrip().endswith('no-failing-input-found') for l in viol) else 'concrete'))
-                results[c] = {'exit': rcc, 'outcome': outcome, 'lines': [l[:300] for l in lines][:6]}
-                # keep the replay text for the record
-                for l in lines:
-                    if l.startswith('VIOLATION') and 'replay=' in l:
-                        rp = l.split('replay=')[1].split()[0]
-                        try:
-                            results[c]['replay'] = json.load(open(os.path.join(VERIF, rp)))
-                        except Exception:
-                            pass
-        finally:
-            sh('git -C /repo checkout -- .')
-            shutil.rmtree(os.path.join(VERIF, 'replays'), ignore_errors=True)
-            sh('git -C %s checkout -- evidence' % VERIF)
     dst = os.path.join(VERIF, 'seeded', sid)
     os.makedirs(dst, exist_ok=True)
     shutil.copy(patch, os.path.join(dst, 'patch.diff')); shutil.copy(demo, os.path.join(dst, 'demo.py'))
